@@ -8,14 +8,14 @@ tie    : C  extracted model (build/modelrun_eval) vs the real interpreter
                                operand pair x literal|variable), executed by ProcessSetStatement /
                                ProcessExpression of a real interpreter
             implrun evalprog : whole programs executed by ProcessBlockStatement, compared with Model/Eval.v
-                               (executable reference only: no theorem is stated about control flow)
+            implrun evalseries : concatenation series of 1-5 operands in both contexts, compared with Model/Concat.v
 oracle : on the implementation alone: ACL verdict = python longest-prefix reference, verdict invariant
          under shuffling; duality of the comparison operators on the implementation's own answers.
 """
 import os
 import vcommon as V
 import eval_util as EU
-from gen import aclgen, evalgen, proggen
+from gen import aclgen, evalgen, proggen, seriesgen
 
 
 def _acl_requests(rng, n_acl, stats):
@@ -312,6 +312,54 @@ def run_programs(ctx, model, impl, thorough):
     return len(progs), len(set(ireq))
 
 
+# minimised inputs of the concatenation defects repaired in interpreter/expression.go (run first):
+# (items, variables, expression text)
+_T0 = ("T", 1758800000, 0, 0)
+SERIES_CORPUS = [
+    ([("_", "V", _T0), ("+", "R", 300 * 10**9)], [_T0], "var.v0 + 5m"),                       # TIME + RTIME literal at the end
+    ([("_", "V", _T0), ("-", "R", 300 * 10**9), ("_", "L", b"x")], [_T0], 'var.v0 + -5m "x"'),   # the minus was dropped
+    ([("_", "L", b"a"), ("_", "V", ("A", b"a0", []))], [("A", b"a0", [])], '"a" var.v0'),          # NULL without an error
+]
+
+
+def run_series(ctx, model, impl, thorough):
+    """concatenation series of 1-5 operands over all type mixes, evaluated by ProcessExpression in both contexts
+    (header/log and local-variable assignment) and by Model/Concat.v"""
+    rng = ctx.rng
+    stats = {}
+    cases = list(SERIES_CORPUS) + [seriesgen.gen_series(rng, stats) for _ in range(250000 if thorough else 12000)]
+    # every pair of operand kinds (type x not-set) in a two-operand series: a small finite product, always complete
+    kinds = []
+    for t in ["I", "F", "S", "B", "R", "T", "P", "K", "A"]:
+        vs = seriesgen.var_values(t)
+        kinds.append(vs[0])
+        if t in "SP":
+            kinds.append(("S", b"", 1) if t == "S" else ("P", None, 1))
+    for a in kinds:
+        for b in kinds:
+            for sg in ("_", "+"):
+                cases.append(([("_", "V", a), (sg, "V", b)], [a, b], "var.v0 %svar.v1" % ("+ " if sg == "+" else "")))
+    irep = V.run_batch(impl + ["evalseries"], [seriesgen.impl_request(*c) for c in cases], hang_s=5)
+    mrep = V.run_batch([model], [seriesgen.model_request(c[0]) for c in cases], hang_s=60)
+    agree = 0
+    out = {}
+    for c, ir, mr in zip(cases, irep, mrep):
+        a, b = seriesgen.canon(ir, "impl"), seriesgen.canon(mr, "model")
+        for k in ("nl", "lo"):
+            st = a.get(k, ("none",))[0]
+            out[k + " " + st] = out.get(k + " " + st, 0) + 1
+        if a == b and len(a) == 2:
+            agree += 1
+            continue
+        ctx.violation("concatenation differs between the interpreter and Model/Concat.v: %s -> interpreter %s, model %s" % (
+            c[2], " ".join((ir or "no reply").split()[:2])[:200], (mr or "no reply")[:200]),
+            {"expression": c[2], "variables": [evalgen.impl_text("", v) for v in c[1]], "impl": ir, "model": mr})
+    ctx.coverage["series"] = {"series": len(cases), "agree_with_model": agree, "outcomes_by_context": dict(sorted(out.items())),
+                              "two_operand_kind_pairs_complete": len(kinds) ** 2 * 2, "generator": dict(sorted(stats.items()))}
+    ctx.samples += [{"series": cases[i][2], "interpreter": " ".join((irep[i] or "").split()[:2])[:200]} for i in (3, len(cases) // 2)]
+    return len(cases), len(set(seriesgen.impl_request(*c) for c in cases))
+
+
 def run(ctx):
     thorough = ctx.thorough()
     proved = ctx.prove()
@@ -330,6 +378,8 @@ def run(ctx):
     n1, d1 = run_acl(ctx, model, impl, thorough)
     n2, d2 = run_cells(ctx, model, impl, thorough)
     n3, d3 = run_programs(ctx, model, impl, thorough)
+    n4, d4 = run_series(ctx, model, impl, thorough)
+    n3, d3 = n3 + n4, d3 + d4
     if not proved and not ctx.violations:
         ctx.violation("proof obligation of C07 no longer checks: " + (ctx.broken or "Props/C07.v"),
                       {"no_failing_input": True, "broken": ctx.broken,
